@@ -32,10 +32,20 @@ def make_top(*components):
     return m
 
 
+PRE_ELABORATE = False     # set by the runner from config["pre"] before every run
+
+
 def build_sim(top):
     """Elaborate and compile. For every world except `elab` (C19) a failure here is not this
-    property's business: counted as unbuildable."""
+    property's business: counted as unbuildable.
+
+    Restart fault: when the run's configuration says so, the design is elaborated once and thrown
+    away before the simulator that is actually used is built (the user synthesised first and
+    simulates afterwards). An exception is C19's business; silently different hardware is the
+    business of whatever property it then breaks."""
     try:
+        if PRE_ELABORATE:
+            Simulator(top)
         sim = Simulator(top)
     except RecursionError as e:
         raise Unbuildable(f"RecursionError during elaboration: {e}") from e
